@@ -122,8 +122,12 @@ def caout(out):
     return "AOther"
 
 
-def events_of_log(log):
+def events_of_log(log, scn=None):
     evs = []
+    shared = {}
+    if scn is not None:
+        shared = {int(k): v["shared"] for k, v in scn.get("payloads", {}).items() if "shared" in v}
+    finished = {}        # group -> finished, not yet handed back payload ids (runs of one function object are interchangeable)
     for rec in log:
         e = rec["ev"]
         tid = rec["tid"]
@@ -157,12 +161,19 @@ def events_of_log(log):
             evs.append("%s %d" % (k, kid(e[1], e[2])))
         elif k == "Finish":
             evs.append("Finish %d %s" % (kid(e[1], e[2]), coutcome(e[3], e[4])))
+            if e[1] == "p" and e[2] in shared:
+                finished.setdefault(shared[e[2]], []).append(e[2])
         elif k == "ExecCall":
             evs.append("ExecCall %s %d %d %d %s" % (cctx(e[1]), tid, e[2], kid("p", e[3]), FL[e[4]]))
+        elif k == "ExecEnd" and e[4][0] == "aborted":
+            evs.append("ExecAbort %d" % kid("p", e[3]))
         elif k == "ExecEnd":
             out = e[4]
             same = len(out) < 3 or out[2] == "same"
-            evs.append("ExecEnd %d %s %s" % (kid("p", e[3]), coutcome(out[0], out[1] if len(out) > 1 else None), cbool(same)))
+            pid_ = e[3]
+            if pid_ in shared and finished.get(shared[pid_]):
+                pid_ = finished[shared[pid_]].pop(0)
+            evs.append("ExecEnd %d %s %s" % (kid("p", pid_), coutcome(out[0], out[1] if len(out) > 1 else None), cbool(same)))
         elif k == "Mark":
             evs.append("Quiesce")
         elif k in ("End", "Timeout", "HarnessError"):
@@ -172,8 +183,8 @@ def events_of_log(log):
     return evs
 
 
-def coq_trace(log):
-    return clist("(%s)" % x for x in events_of_log(log))
+def coq_trace(log, scn=None):
+    return clist("(%s)" % x for x in events_of_log(log, scn))
 
 
 # ------------------------------------------------------------------------------------------
@@ -316,9 +327,21 @@ def gen_fail(rng):
     same_flavour = rng.random() < 0.4
     fl0 = rng.choice(FLS)
     fails = []
+    burst = rng.random() < 0.2
+    early = False
+    if burst:            # several thread payloads failing at the same instant
+        nfail, same_flavour, fl0, immediate = rng.choice([3, 4, 6]), True, "threading", False
     for _ in range(nfail):
         fl = fl0 if same_flavour else rng.choice(FLS)
         end = rnd_failure(rng)
+        if not burst and rng.random() < 0.15:
+            # fails when called: never becomes a coroutine
+            pid = b.payload(fl, [])
+            b.payloads[str(pid)]["callfail"] = rng.randrange(N_EXC_EXCEPTION)
+            fails.append(["p", pid, fl, ["raise", b.payloads[str(pid)]["callfail"]]])
+            (b.main if rng.random() < 0.5 else h).append(["adopt", 0, pid])
+            early = True          # fails as soon as it is started: no quiet period before the failure
+            continue
         pre = [] if immediate else [["wait", "fail"]]
         if not immediate and rng.random() < 0.3:
             pre.append(["sleep", rng.choice([0.0, 0.001, 0.01])])
@@ -339,10 +362,14 @@ def gen_fail(rng):
             parent = b.payload(pfl, [["adopt", 0, pid]] + rnd_bystander_script(rng, pfl), rnd_cleanup(rng, pfl))
             (b.main if rng.random() < 0.5 else h).append(["adopt", 0, parent])
     b.main.append(["accept", 0])
-    if not immediate:
+    if not immediate and not early:
         h += [["sleep", SETTLE], ["mark", "settled"], ["set", "fail"]]
+    elif not immediate:
+        h += [["sleep", 0.05], ["set", "fail"]]
     b.helpers.append(h)
-    b.meta = {"family": "fail", "fails": fails, "immediate": immediate}
+    b.meta = {"family": "fail", "fails": fails, "immediate": immediate or early, "burst": burst}
+    if burst:
+        return b.scenario(switchinterval=rng.choice([1e-6, 1e-5, 1e-4]))
     return b.scenario()
 
 
@@ -351,12 +378,28 @@ def gen_stop(rng):
     b = Builder(rng)
     h = [["wait_running", 0]]
     add_bystanders(b, rng, rng.choice([0, 1, 2, 3, 5, 7]), h)
+    stalls = False
+    if rng.random() < 0.35:
+        # a coroutine / thread payload that keeps executing payloads of another flavour: termination is
+        # likely to arrive while such a call is in flight
+        cfl = rng.choice(FLS)
+        tfl = rng.choice([f for f in FLS if f != cfl])
+        script = []
+        for _ in range(12):
+            # (an executed THREAD payload runs in the caller's thread: from a coroutine caller it must not block)
+            body = [["step"]] if (tfl == "threading" and cfl != "threading") else [["step"], ["sleep", rng.choice([0.02, 0.05])]]
+            q = b.payload(tfl, body)
+            script.append(["execute", 0, q])
+        caller = b.payload(cfl, script + rnd_bystander_script(rng, cfl), rnd_cleanup(rng, cfl))
+        h.append(["adopt", 0, caller])
+        stalls = cfl != "threading"      # a coroutine caller blocks its own loop while it waits
     trigger = rng.choice(["shutdown", "shutdown", "sigint", "thread_shutdown", "kbd", "fail"])
     when = rng.choice(["early", "mid", "late"])
     if when == "mid":
         h.append(["sleep", rng.choice([0.01, 0.03, 0.07, 0.12])])
     elif when == "late":
-        h += [["sleep", SETTLE], ["mark", "settled"]]
+        # no quiescence claim while a coroutine payload keeps stalling its own loop with blocking calls
+        h += [["sleep", SETTLE]] + ([] if stalls else [["mark", "settled"]])
     if trigger == "shutdown":
         h.append(["shutdown", 0])
     elif trigger == "sigint":
@@ -379,6 +422,44 @@ def gen_stop(rng):
     b.helpers.append(h)
     b.meta = {"family": "stop", "trigger": trigger, "when": when}
     return b.scenario(linger=0.5)
+
+
+_RUNNER_FUNCS = []
+
+
+def runner_functions():
+    """qualified names of all functions/methods defined in the runtime's own modules (for targeted
+    schedule perturbation); read from the current sources"""
+    if not _RUNNER_FUNCS:
+        import ast
+        d = os.path.join(common.REPO, "src", "cobald", "daemon", "runners")
+        for fn in sorted(os.listdir(d)):
+            if not fn.endswith(".py"):
+                continue
+            with open(os.path.join(d, fn)) as fh:
+                tree = ast.parse(fh.read())
+
+            def walk(node, prefix):
+                for n in ast.iter_child_nodes(node):
+                    if isinstance(n, (ast.FunctionDef, ast.AsyncFunctionDef)):
+                        _RUNNER_FUNCS.append(prefix + n.name)
+                        walk(n, prefix + n.name + ".<locals>.")
+                    elif isinstance(n, ast.ClassDef):
+                        walk(n, prefix + n.name + ".")
+            walk(tree, "")
+    return _RUNNER_FUNCS
+
+
+def rnd_perturbation(rng):
+    """either many short random delays anywhere in the runtime's code, or long delays inside one or two
+    randomly chosen functions of it (holding a thread in the middle of that function for several
+    polling cycles)"""
+    if rng.random() < 0.4:
+        return {"p": rng.choice([0.01, 0.03, 0.08]), "sleep": rng.choice([0.001, 0.004, 0.015]), "seed": rng.randrange(10 ** 6)}
+    fs = runner_functions()
+    k = min(len(fs), rng.choice([6, 10, 16]))
+    return {"funcs": rng.sample(fs, k), "p": 0.3, "sleep": rng.choice([0.08, 0.15]),
+            "max": 8, "total": 30, "seed": rng.randrange(10 ** 6), "budget_s": 30 * 0.15}
 
 
 def gen_adopt(rng):
@@ -405,7 +486,21 @@ def gen_adopt(rng):
             args, kwargs = rnd_args(rng)
             pid = b.payload(fl, rnd_bystander_script(rng, fl), rnd_cleanup(rng, fl), args, kwargs)
             h.append(["adopt", 0, pid])
-    h += [["sleep", SETTLE + 2.5 * b.runners[0]["accept_delay"]], ["mark", "settled"]]
+    # submission from a thread that runs a private asyncio loop (outside thread or thread payload)
+    for _ in range(rng.choice([0, 0, 1, 2])):
+        fl = rng.choice(FLS)
+        args, kwargs = rnd_args(rng)
+        pid = b.payload(fl, rnd_bystander_script(rng, fl), rnd_cleanup(rng, fl), args, kwargs)
+        if rng.random() < 0.5:
+            h.append(["adopt_private_loop", 0, pid])
+        else:
+            parent = b.payload("threading", [["adopt_private_loop", 0, pid], ["step"], ["forever"]])
+            h.append(["adopt", 0, parent])
+    perturb = None
+    if rng.random() < 0.5:
+        perturb = rnd_perturbation(rng)
+    h += [["sleep", (SETTLE + 2.5 * b.runners[0]["accept_delay"]) * (2.5 if perturb else 1.0)
+           + (perturb.get("budget_s", 0.0) if perturb else 0.0)], ["mark", "settled"]]
     race = rng.random() < 0.5
     if race:
         h2 = [["wait", "burst"]]
@@ -422,7 +517,9 @@ def gen_adopt(rng):
     h.append(["shutdown", 0])
     b.main.append(["accept", 0])
     b.helpers.insert(0, h)
-    b.meta = {"family": "adopt", "race": race}
+    b.meta = {"family": "adopt", "race": race, "perturbed": bool(perturb)}
+    if perturb:
+        return b.scenario(linger=0.5, timeout=25, perturb=perturb)
     return b.scenario(linger=0.5)
 
 
@@ -442,8 +539,10 @@ def gen_exec(rng):
         pre = [["step"]] + ([["sleep", rng.choice([0, 0.005, 0.02])]] if rng.random() < 0.5 else [])
         if rng.random() < 0.3:
             pre.append(["section", 300])
-        pid = b.payload(fl, pre + end, args=args, kwargs=kwargs)
         caller = rng.choice(["outside", "outside", "thread", "other"])
+        if caller == "other" and fl == "threading":
+            pre = [["step"]]             # runs in the (coroutine) caller's thread: must not block it
+        pid = b.payload(fl, pre + end, args=args, kwargs=kwargs)
         if caller == "outside":
             h.append(["execute", 0, pid])
         else:
@@ -459,9 +558,21 @@ def gen_exec(rng):
             parent = b.payload(cfl, [["execute", 0, pid]] + rnd_bystander_script(rng, cfl), rnd_cleanup(rng, cfl))
             h.append(["adopt", 0, parent])
         calls.append([pid, fl, caller])
+    if rng.random() < 0.5:
+        # the SAME payload object executed by several callers at overlapping times
+        fl = rng.choice(["asyncio", "trio"])
+        grp = "g%d" % rng.randrange(1000)
+        for k in range(rng.choice([2, 3])):
+            hk = [["wait_running", 0], ["sleep", 0.06]]
+            for _ in range(rng.choice([2, 4])):
+                pid = b.payload(fl, [["step"], ["sleep", rng.choice([0.005, 0.02])]])
+                b.payloads[str(pid)]["shared"] = grp
+                hk.append(["execute", 0, pid])
+                calls.append([pid, fl, "shared"])
+            b.helpers.append(hk)
     h += [["sleep", SETTLE], ["mark", "settled"], ["shutdown", 0]]
     b.main.append(["accept", 0])
-    b.helpers.append(h)
+    b.helpers.insert(0, h)
     b.meta = {"family": "exec", "calls": calls}
     return b.scenario(linger=0.4)
 
@@ -803,7 +914,8 @@ def oracle_C03(v):
                 out.append("wrong-flavour: %s%d asked %s ran as %s" % (key[0], key[1], spec["flavour"], e[3]))
             if e[4] <= 0 and e[3] != "threading":
                 out.append("wrong-flavour: %s%d (%s) does not see its runner's loop" % (key[0], key[1], e[3]))
-            if e[3] == "threading" and e[4] != 0:
+            if e[3] == "threading" and e[4] != 0 and not (key[0] == "p" and key[1] in executed_ids(v)):
+                # (an EXECUTED thread payload runs in its caller's thread, which may be a loop thread)
                 out.append("wrong-flavour: thread payload %s%d runs inside an event loop" % (key[0], key[1]))
             if not e[6]:
                 out.append("wrong-args: %s%d received %s %s" % (key[0], key[1], e[7], e[8]))
@@ -833,8 +945,19 @@ def oracle_C03(v):
 
 def oracle_C10(v):
     out = []
+    trig0 = [i for (i, _t, _tid, e) in v.ev if e[0] in ("ShutdownCall", "Sigint")
+             or (e[0] == "Finish" and e[3] in ("ret_val", "raise", "kbd") and not (e[1] == "p" and e[2] in executed_ids(v)))]
     for (i, _t, _tid, e) in v.find("ExecEnd"):
         pid, o = e[3], e[4]
+        if o[0] == "aborted":
+            if not trig0 or min(trig0) > i:
+                out.append("exec-outcome: execute of p%d was broken off (%s) although the runtime was not stopping" % (pid, o[1]))
+            continue
+        if "shared" in v.spec("p", pid):
+            # runs of one shared function object are interchangeable (all return None)
+            if o[0] != "ret_none":
+                out.append("exec-outcome: caller of shared payload p%d saw %s, every run returns None" % (pid, o))
+            continue
         fin = [e2 for (_j, _t2, _tid2, e2) in v.find("Finish") if e2[1] == "p" and e2[2] == pid]
         st = [e2 for (_j, _t2, _tid2, e2) in v.find("Start") if e2[1] == "p" and e2[2] == pid]
         if len(st) != 1:
@@ -1043,7 +1166,7 @@ def evaluate(chk, pid, scns, results, tag):
             viol.append((i, msgs))
         elif hp:
             harness_bad.append((i, hp))
-    terms = [coq_trace(v.log) for v in views]
+    terms = [coq_trace(v.log, v.scn) for v in views]
     bad = common.coq_eval_cases(pid, CORR_PRELUDE, "RTCorr.check", "RTCorr.case", terms, shard=12, tag=tag)
     return views, viol, harness_bad, bad, terms
 
@@ -1060,7 +1183,7 @@ def main(pid, coq_targets, tier=None, seed=None, replay=None):
         for rec in v.log:
             print(rec["t"], rec["tid"], rec["ev"])
         print("oracle:", msgs)
-        print("model:", diagnose(pid, coq_trace(v.log)))
+        print("model:", diagnose(pid, coq_trace(v.log, v.scn)))
         return 1 if msgs else 0
 
     ok_build, log = chk.build_props(coq_targets)
@@ -1088,7 +1211,7 @@ def main(pid, coq_targets, tier=None, seed=None, replay=None):
         hp2 = harness_problems(v2)
         if [m for m in hp2 if "did not finish" in m]:
             msgs2 = msgs2 + ["no-end: scenario did not reach its end within the time bound"]
-        bad2 = common.coq_eval_cases(pid, CORR_PRELUDE, "RTCorr.check", "RTCorr.case", [coq_trace(v2.log)], tag="corr_rerun")
+        bad2 = common.coq_eval_cases(pid, CORR_PRELUDE, "RTCorr.check", "RTCorr.case", [coq_trace(v2.log, v2.scn)], tag="corr_rerun")
         return v2, msgs2, hp2, bool(bad2)
 
     reported = set()
@@ -1107,7 +1230,7 @@ def main(pid, coq_targets, tier=None, seed=None, replay=None):
         reported.add(k)
         chk.violation({"what": [m for m in msgs2 if m.startswith(k)][0], "all": msgs2, "scenario": scns[i],
                        "log": [[r["t"], r["tid"], r["ev"]] for r in v2.log][:400],
-                       "model": diagnose(pid, coq_trace(v2.log))})
+                       "model": diagnose(pid, coq_trace(v2.log, v2.scn))})
     mism_detail = []
     for i in bad:
         if i in [x for (x, _m) in viol]:
@@ -1117,7 +1240,7 @@ def main(pid, coq_targets, tier=None, seed=None, replay=None):
             chk.note("scenario %d: model disagreement not reproduced on re-run" % i)
             continue
         n_mism += 1
-        mism_detail.append({"scenario": scns[i], "model": diagnose(pid, coq_trace(v2.log)),
+        mism_detail.append({"scenario": scns[i], "model": diagnose(pid, coq_trace(v2.log, v2.scn)),
                             "oracle": msgs2, "harness": hp2,
                             "log": [[r["t"], r["tid"], r["ev"]] for r in v2.log][:400]})
     if mism_detail:
